@@ -208,7 +208,7 @@ func ruleP19CmdEffects(p *Prog, r *Report) {
 				if g := staticCallee(c); g != nil && g.Parent() == run {
 					okB = true
 					for _, ret := range returnsOf(g) {
-						rc, _ := callOf(ret.Results[0])
+						rc, _ := callOf(retResult(ret, 0))
 						if rc == nil || staticCallee(rc) == nil {
 							okB = false
 							continue
@@ -268,7 +268,7 @@ func ruleP19CmdEffects(p *Prog, r *Report) {
 				}
 				if len(falseSucc.Preds) == 1 {
 					msg := rejectComplete(falseSucc, func(ret *ssa.Return) string {
-						if p.nilnessAt(ret.Block(), ret.Results[0], 0) != nnNonNil {
+						if p.nilnessAt(ret.Block(), retResult(ret, 0), 0) != nnNonNil {
 							return "returns nil"
 						}
 						return ""
@@ -308,7 +308,7 @@ func ruleP19CmdEffects(p *Prog, r *Report) {
 					msg = "nil edge shared"
 				} else {
 					msg = rejectComplete(nilB, func(ret *ssa.Return) string {
-						if p.nilnessAt(ret.Block(), ret.Results[0], 0) != nnNonNil {
+						if p.nilnessAt(ret.Block(), retResult(ret, 0), 0) != nnNonNil {
 							return "returns nil for an unknown bookmark"
 						}
 						return ""
@@ -444,7 +444,7 @@ func ruleP19Remove(p *Prog, r *Report) {
 		a := del.Common().Args
 		r.check(isMap(a[0], rem) && strip(a[1]) == ssa.Value(rem.Params[1]), rule, "Remove:delete", p.instrPos(del), "deletes exactly the key given", "Remove does not delete exactly the key it is given")
 		for i, ret := range returnsOf(rem) {
-			v, isC := constBool(ret.Results[0])
+			v, isC := constBool(retResult(ret, 0))
 			after := del.Block().Dominates(ret.Block())
 			ok := isC && v == after
 			r.check(ok, rule, fmt.Sprintf("Remove:return#%d", i), p.instrPos(ret), "reports true exactly when it deleted", "Remove's result does not say whether the key was deleted")
@@ -486,7 +486,7 @@ func ruleP19Remove(p *Prog, r *Report) {
 	// Get: lookup of the key given
 	okGet := false
 	for _, ret := range returnsOf(get) {
-		if lk, ok := strip(ret.Results[0]).(*ssa.Lookup); ok && isMap(lk.X, get) && strip(lk.Index) == ssa.Value(get.Params[1]) {
+		if lk, ok := strip(retResult(ret, 0)).(*ssa.Lookup); ok && isMap(lk.X, get) && strip(lk.Index) == ssa.Value(get.Params[1]) {
 			okGet = true
 		}
 	}
@@ -504,7 +504,7 @@ func ruleP19Sorted(p *Prog, r *Report) {
 		r.bad(rule, "All:returns", p.pos(all.Pos()), "All has several returns")
 		return
 	}
-	res := rets[0].Results[0]
+	res := retResult(rets[0], 0)
 	// the returned slice is a variable cell (captured by the comparator) or an SSA value
 	var cell *ssa.Alloc
 	if u, ok := strip(res).(*ssa.UnOp); ok && u.Op == token.MUL {
@@ -545,7 +545,7 @@ func ruleP19Sorted(p *Prog, r *Report) {
 	// comparator: res[i].Name() < res[j].Name()
 	okCmp := false
 	for _, ret := range returnsOf(less) {
-		b, ok := strip(ret.Results[0]).(*ssa.BinOp)
+		b, ok := strip(retResult(ret, 0)).(*ssa.BinOp)
 		if !ok || (b.Op != token.LSS && b.Op != token.LEQ) {
 			continue
 		}
@@ -741,7 +741,7 @@ func ruleP19Names(p *Prog, r *Report) {
 	fallback := ""
 	okFb := false
 	for _, ret := range returnsOf(newName) {
-		v := strip(ret.Results[0])
+		v := strip(retResult(ret, 0))
 		if cv, ok := v.(*ssa.Convert); ok {
 			v = cv.X
 		}
@@ -768,7 +768,7 @@ func ruleP19Names(p *Prog, r *Report) {
 	// Default(): lookup of the same constant
 	okDef := false
 	for _, ret := range returnsOf(def) {
-		if lk, ok := strip(ret.Results[0]).(*ssa.Lookup); ok {
+		if lk, ok := strip(retResult(ret, 0)).(*ssa.Lookup); ok {
 			if s, isS := constString(lk.Index); isS && s == fallback {
 				okDef = true
 			}
